@@ -1,3 +1,69 @@
-From Thunder Require Import Lib.Json DiffMerge.Model.
-Theorem placeholder : True. Proof. exact I. Qed.
-Print Assumptions placeholder.
+(** C03 - Diff/merge round trip.  Property theorems only; proofs are in DiffMerge/Proofs*.v.
+
+    Model: DiffMerge/Model.v ([Diff] = diff/diff.go, [Merge] = merge/merge.go, [MergeJS] =
+    client/src/merge.ts, [strip] = diff.StripKey), checked against the code on every run.
+    [wf]: object keys unique, a [__key] (when present) is a non-null scalar.
+    [jeq]: equality of JSON values with objects read as finite maps (Go maps are unordered).
+    [Diff old new = None] is Go's nil delta ("nothing to send").
+
+    Not a theorem: "Diff never modifies its arguments" (inherent in a functional model; checked on the
+    implementation by the harness) and "every delta survives JSON serialisation" (deltas are [json] terms
+    by construction; the harness checks Marshal/Unmarshal on every generated delta). *)
+From Coq Require Import List ZArith String.
+From Thunder Require Import Lib.Json DiffMerge.Model DiffMerge.ProofsCompress DiffMerge.ProofsMergeGo
+     DiffMerge.ProofsMain DiffMerge.ProofsSelf DiffMerge.ProofsJS.
+Import ListNotations.
+Open Scope string_scope.
+
+(** Applying Diff(old,new) with thunder's Go merge to the key-stripped old value yields the key-stripped
+    new value (and never fails); an empty delta means the stripped values are already equal. *)
+Theorem roundtrip_go :
+  forall old new, wf old = true -> wf new = true ->
+    match Diff old new with
+    | None => jeq (strip old) (strip new)
+    | Some d => exists r, Merge (strip old) d = Some r /\ jeq r (strip new)
+    end.
+Proof. intros old new Ho Hn. exact (roundtrip_go_all new old Ho Hn). Qed.
+Print Assumptions roundtrip_go.
+
+(** The same for the JavaScript client's merge. *)
+Theorem roundtrip_js :
+  forall old new, wf old = true -> wf new = true ->
+    match Diff old new with
+    | None => jeq (strip old) (strip new)
+    | Some d => jeq (MergeJS (strip old) d) (strip new)
+    end.
+Proof. intros old new Ho Hn. exact (roundtrip_js_all new old Ho Hn). Qed.
+Print Assumptions roundtrip_js.
+
+(** Diff of a value with itself is empty. *)
+Theorem diff_self : forall v, wf v = true -> Diff v v = None.
+Proof. exact diff_self_all. Qed.
+Print Assumptions diff_self.
+
+(** The run-length encoding of reorder indices is lossless ([start, count] runs, singletons, -1). *)
+Theorem reorder_indices_roundtrip : forall idx : list (option nat), uncompress (compress idx) = Some idx.
+Proof. exact uncompress_compress. Qed.
+Print Assumptions reorder_indices_roundtrip.
+
+(** Non-vacuity: a well-formed pair with keyed objects, a reorder, an insertion, a removed field and a new
+    complex field; its delta uses the "$" encoding, and both merges reproduce the new value. *)
+Definition ex_old : json :=
+  JObj [("xs", JArr [JObj [("__key", JNum 1); ("a", JNum 5)]; JObj [("__key", JNum 2); ("a", JNum 6)]; JNum (-1)]);
+        ("gone", JStr "x")].
+Definition ex_new : json :=
+  JObj [("xs", JArr [JObj [("__key", JNum 2); ("a", JNum 7)]; JObj [("__key", JNum 3)]; JObj [("__key", JNum 1); ("a", JNum 5)]; JNum (-1)]);
+        ("fresh", JArr [JNum 1; JNum 2])].
+Example ex_wf : wf ex_old = true /\ wf ex_new = true.
+Proof. split; reflexivity. Qed.
+Example ex_delta :
+  Diff ex_old ex_new =
+  Some (JObj [("gone", JArr []);
+              ("xs", JObj [("$", JArr [JNum 1; JNum (-1); JNum 0; JNum 2]); ("0", JObj [("a", JNum 7)]); ("1", JArr [JObj []])]);
+              ("fresh", JArr [JArr [JNum 1; JNum 2]])]).
+Proof. vm_compute. reflexivity. Qed.
+Example ex_merge :
+  option_map norm (match Diff ex_old ex_new with Some d => Merge (strip ex_old) d | None => None end)
+  = Some (norm (strip ex_new))
+  /\ norm (match Diff ex_old ex_new with Some d => MergeJS (strip ex_old) d | None => JNull end) = norm (strip ex_new).
+Proof. split; vm_compute; reflexivity. Qed.
